@@ -9,6 +9,7 @@ from ..engine.mutate import Mutant, Variant, in_function, replace_once
 from ..engine.runner import Rule
 from ..engine.source import AnalysisError
 from ..engine.sqlfront import all_where_clauses, split_conjuncts
+from . import C10
 from .common import callee_name, calls_in
 
 EXPLANATION = (
@@ -248,12 +249,19 @@ def rule_claims_replaced(ctx):
     top = {id(st_.value) for st_ in sr.node.body if isinstance(st_, ast.Expr)}
     ctx.check(len(dele) == 1 and id(dele[0].site.call) in top and "node = ?" in re.sub(r"\s+", " ", dele[0].text).replace(" . ", "."), sr.fq, "the step's old claims are deleted unconditionally", "claims of the previous declaration survive a re-declaration", "DELETE FROM step_resource WHERE node = ?", where=ctx.where_of(sr))
     ctx.check(len(ins) == 1 and ins[0].site.lineno > (dele[0].site.lineno if dele else 0), sr.fq, "the declared claims are inserted after the delete", "declared claims are not stored", "INSERT INTO step_resource")
+    if dele:
+        dt = re.sub(r"\s+", " ", dele[0].text).replace(" . ", ".").strip()
+        ctx.check(re.fullmatch(r"DELETE FROM step_resource WHERE node = \?", dt) is not None, sr.fq, "all claims of the step are deleted, not a subset", f"`{dt}` keeps some of the old rows: a claim that is re-declared with more units keeps its old number of units", "WHERE node = ? only")
+    if ins:
+        it = re.sub(r"\s+", " ", ins[0].text).upper()
+        ctx.check("ON CONFLICT" not in it and "OR IGNORE" not in it, sr.fq, "the insert does not defer to an existing row", "an existing row wins over the declared units", "plain INSERT")
     callers = sorted({cs.caller.fq for sites in ctx.cg.sites.values() for cs in sites if callee_name(cs.node) == "set_resources"})
     ctx.check({"workflow.Workflow.define_step", "step.Step.after_recycle"} <= set(callers), "step.Step.set_resources", "both declaration paths (new row, full recycle) store the claims", f"callers: {callers}", "define_step and after_recycle")
 
 
 RULES = [
-    Rule("R-C12-7", "resource claims are replaced on declaration", rule_claims_replaced, min_instances=3),
+    Rule("R-C12-8", "steps (re)attached inside a hold block are re-examined (hold clause relies on the _safe recomputation)", C10.rule_step_overrides, min_instances=8),
+    Rule("R-C12-7", "resource claims are replaced on declaration", rule_claims_replaced, min_instances=5),
     Rule("R-C12-1", "tasks start only inside the slot budget", rule_slots, min_instances=8),
     Rule("R-C12-2", "commands are launched only inside the budget", rule_commands_in_budget, min_instances=10),
     Rule("R-C12-3", "resource check-then-claim is atomic and exact", rule_resources, min_instances=8),
@@ -263,6 +271,7 @@ RULES = [
 ]
 
 MUTANTS = [
+    Mutant("claims-merged-not-replaced", "step.py", in_function("Step.set_resources", lambda t: t.replace('"DELETE FROM step_resource WHERE node = ?", (self.i,)', '"DELETE FROM step_resource WHERE node = ? AND name NOT IN (SELECT value FROM json_each(?))", (self.i, "[]")', 1).replace('"INSERT INTO step_resource VALUES (?, ?, ?)"', '"INSERT INTO step_resource VALUES (?, ?, ?) ON CONFLICT DO NOTHING"', 1) if '"DELETE FROM step_resource WHERE node = ?", (self.i,)' in t else None), ("R-C12-7",)),
     Mutant("old-claims-kept", "step.py", in_function("Step.set_resources", replace_once('        self.db.execute("DELETE FROM step_resource WHERE node = ?", (self.i,))\n', "")), ("R-C12-7",)),
     Mutant("claims-not-stored", "step.py", in_function("Step.set_resources", replace_once('        self.db.executemany("INSERT INTO step_resource VALUES (?, ?, ?)", rows)\n', "")), ("R-C12-7",)),
     Mutant("recycle-clears-hold", "step.py", in_function("Step.after_recycle", replace_once('"UPDATE step SET need = ?, shell = ? WHERE node = ?"', '"UPDATE step SET need = ?, shell = ?, _holding = 0 WHERE node = ?"')), ("R-C12-5",)),
